@@ -58,6 +58,10 @@ CHECKS['C20'] = ('E4', 'model_checking',
     'Three bounded-exhaustive families on fresh real objects: (auth) every configuration (user tables incl. users with guessable derived passwords, dict/callable tables, realms, methods, encrypt kinds) x every Authorization header of a grammar covering Basic and Digest (users absent from the table, right/wrong/None/empty passwords, realm and method mismatches, qop/nc/cnonce/algorithm variants, every subset of required Digest fields missing, bad base64, no space, unknown scheme) through check_auth, basic_auth and digest_auth, judged by a three-valued reference verifier built on an independent RFC 2617 implementation; (sess) every sequence of 2-3 requests over 8 clients x 9 cookie kinds through a real Sessions component with scripted uuid4, judged by a reference store keyed by (sid, client); (vhost) every trusted-gateway list x remote address x X-Forwarded-Host x Host x path through a real VirtualHosts, differential oracle.',
     'Trusted: the independent RFC 2617 reference; an exception escaping the auth functions counts as refusal; completeness judged for canonical spellings only; nonce/uri validation not judged.',
     'bounded-exhaustive input/configuration enumeration against reference verifiers', 'DESIGN.md 6/C20')
+CHECKS['C16'] = ('E4', 'model_checking',
+    'Bounded-exhaustive enumeration on a fixture tree in a temp dir (secret in the parent, sibling whose name extends the docroot name): every path of 0-3 (quick) / 0-4 (thorough) segments over a 17-segment alphabet (.., ., empty, %2e%2e, %252e%252e, ..%2f, %2e%2e%2f, backslash forms, encoded absolute path, benign names) x mount (none, /, /static, /static glued to the first segment) x dirlisting x three front ends (request bytes through HTTP, request event with Request.path set, WSGI Application + Static); reference = unquote once, normpath, containment; the answer must be 3xx/4xx or exactly the denoted file/index/listing, no marker from outside may appear, and an audit hook sees no open/listdir outside the docroot. Ranges: every header unit{bytes, items, no =} x one or two specs over {empty, 0,1,5,9,10,11,100,x,-1} x file sizes {0,1,10,100}, judged by an RFC 7233 reference (206 exact bytes + Content-Range, 416, or 200; never 5xx, never bytes beyond the file).',
+    'Trusted: in-memory model of the fixture; any 3xx/4xx counts as refusal; stat()/exists() outside the root are counted, not judged; symlinks and non-POSIX semantics not covered.',
+    'bounded-exhaustive input/configuration enumeration through the real HTTP/dispatcher/WSGI front ends with a reference model', 'DESIGN.md 6/C16')
 NOT_YET = {}
 def main():
     props = [json.loads(l) for l in open(os.path.join(HERE, 'properties.jsonl'))]
